@@ -31,6 +31,14 @@ def map_oracle(name, est, y_seen, where, replay):
         got = [mp.get(a) for a in la]
         if got != lb:
             f("mapping the stored A-side labels does not reproduce the targets", "map-reproduces-targets")
+        # the same through the public mapping function, on the whole label vector and on single labels
+        try:
+            pub = [int(v) for v in est.map_a2b(np.asarray(est.module_a.labels_))]
+            one = [int(est.map_a2b(int(a))) for a in la[:4]]
+            if pub != lb or one != lb[:4]:
+                f(f"map_a2b(labels_a) = {pub[:12]}.., map_a2b(int) = {one}: not the stored targets {lb[:12]}..", "map-reproduces-targets")
+        except Exception as e:
+            f(f"map_a2b raised {type(e).__name__}: {str(e)[:80]}", "map-reproduces-targets")
     return fails
 
 
